@@ -12,7 +12,9 @@ from checks import var_common as vc
 from checks.var_common import text, sweep
 
 PID = 'C03'
-ALPHA = ['&', '<', '>', '"', "'", 'a', '\xe9', '\U0001F600']
+ALPHA = ['&', '<', '>', '"', "'", 'a', '\xe9', '\U0001F600', '\n']
+# characters that line-oriented or white-space-oriented code treats specially, placed before / between / after the specials
+SEPS = ['\n', '\r', '\r\n', '\x0b', '\x0c', '\x85', '\u2028', '\u2029', '\x00', '\t', ' ', '\x1c', '\xa0', 'a\n', '\n\n', '\ufeff', '\\']
 
 
 def strings(maxlen, rng, cap):
@@ -37,6 +39,14 @@ def sweeps(tier, rng):
         # html_quote together with a format that keeps the text
         sweep(vals[::2], [['html_quote']], fmts=('pct', 'strip', 'url-unquote'), forms=('name',)),
     ]
+    # a special character after / before / between separators (multi-line text, control characters)
+    st = []
+    for sep in SEPS:
+        for sp in ('&', '<', '>', '"', "'", '<&'):
+            st += [sep + sp, sp + sep, 'x' + sep + sp + sep + 'y', sep + sep + sp, 'line one' + sep + sp + 'b' + sp]
+    out.append(sweep([text(x) for x in st], [['html_quote']], forms=('entity', 'name', 'expr')))
+    out.append(sweep([text(x) for x in st[::2]], [[]], fmts=('html-quote', ''), forms=('name',)))
+    out.append(sweep([text(x, enc='utf-8') for x in st[::3]], [['html_quote']], forms=('entity', 'name')))
     # bytes values in the template's encoding
     bvals = [text(s, enc='utf-8') for s in ss if s][::3] + \
             [text(s, enc='latin-1') for s in ss if s and '\U0001F600' not in s][::3]
@@ -85,7 +95,7 @@ def main(tier):
                   rule='all strings up to length 3 (4 thorough, sampled) over {& < > " \' a e-acute emoji} x {entity, '
                        'html_quote alone (name / expression), fmt=html-quote, html_quote with size/null, plain}; bytes in '
                        'utf-8 / latin-1; single code points (all below U+0800 resp. U+3000 and a random sample of the rest); '
-                       'random longer strings; the forms after a tainted insertion in the same block list')
+                       'random longer strings; specials next to line / control separators; the forms after a tainted insertion in the same block list')
 
 
 replay = vc.replay_file
